@@ -302,11 +302,20 @@ def inventory(rep, nt):
     return mats, shaperoles
 
 
-def bindings(mats, shaperoles, thorough, nt):
+def draw_fracs(rng, nt):
+    while True:
+        fr = sorted(rng.uniform(0.03, 0.97) for _ in range(nt))
+        if all(b - a >= 0.06 for a, b in zip(fr, fr[1:])):
+            rng.shuffle(fr)         # temperature indices carry no order in the specification
+            return fr
+
+
+def bindings(mats, shaperoles, thorough, nt, rng=None):
     """quick: every material with 3 shape-roles (rotating, so every shape-role meets >= 8 materials), partner kind
     alternating; thorough: every shape-role x every material, with a solid and with a fluid partner.  The two components
     share one temperature table: fractions of the intersection of the two materials' valid ranges (a temperature passed
-    explicitly to getDimension travels through links to the other component)."""
+    explicitly to getDimension travels through links to the other component); fixed fractions in quick, seeded random
+    fractions per binding when rng is given (thorough)."""
     solids = [m for m, k in mats if k == "solid"]
     fluids = [m for m, k in mats if k == "fluid"]
     partners = sorted(G.PARTNERS)
@@ -320,9 +329,10 @@ def bindings(mats, shaperoles, thorough, nt):
         for si, (shape, role) in srs:
             for pk in (("solid", "fluid") if thorough else (("solid", "fluid")[(mi + si) % 2],)):
                 pool = solids if pk == "solid" else fluids
+                fr = FRACS[nt] if rng is None else draw_fracs(rng, nt)
                 for off in range(len(pool)):
                     pm = pool[(mi + 2 * si + 1 + off) % len(pool)]
-                    temps = m.temps(FRACS[nt], pm)
+                    temps = m.temps(fr, pm)
                     if temps is None:
                         continue
                     s2 = Side(2, partners[n % len(partners)], (), pm, temps, partner=True)
@@ -564,7 +574,7 @@ def run(rep, tier, seed):
         raise tlc.MachineryError("vacuous emission: no edge of kind %s" % missing)
     nt = 4 if thorough else 3
     mats, shaperoles = inventory(rep, nt)
-    binds = bindings(mats, shaperoles, thorough, nt)
+    binds = bindings(mats, shaperoles, thorough, nt, rng if thorough else None)
     n, nontriv, nedges, divs, sample = replay_bindings(rep, g, states, binds, 40 if thorough else (8 if _SELFTEST else 24), rng)
     if n == 0:
         raise tlc.MachineryError("nothing replayed")
@@ -584,7 +594,7 @@ def run(rep, tier, seed):
 
     # 3. code -> spec: long random histories (4 temperatures) on a rotating subset of the pairs
     mats4, _ = (mats, None) if nt == 4 else inventory(None, 4)
-    tb = bindings(mats4, shaperoles, thorough, 4)
+    tb = bindings(mats4, shaperoles, thorough, 4, rng if thorough else None)
     if not thorough:
         tb = tb[:: max(1, len(tb) // (60 if _SELFTEST else 120))]
     else:
@@ -596,7 +606,7 @@ def run(rep, tier, seed):
     rep.assume(
         "material inputs: f(T) = 1 + linearExpansionPercent(T)/100 (fluids: pseudoDensity(T)) measured once per material and temperature "
         "from a fresh material instance; the VALUE of a correlation is an input, the laws relating observations are checked",
-        "temperatures: fractions %s of the intersection of the ranges the two materials' correlations themselves check (checkTempRange "
+        "temperatures: fractions %s (thorough: seeded random fractions per pair) of the intersection of the ranges the two materials' correlations themselves check (checkTempRange "
         "calls recorded); materials that check nothing use %s C (listed in coverage.inventory)" % (list(FRACS[nt]), list(G.DEFAULT_RANGE_C)),
         "materials whose linearExpansionPercent is identically 0 ('inert': no correlation implemented) are modelled with the documented "
         "refusal: reading / hot-setting a length at T != Tinput raises RuntimeError, setTemperature leaves the densities unchanged",
@@ -654,10 +664,14 @@ def selftest():
     C = component.Component
     M = material.Material
 
+    from harness import findings
+
+    known = findings.known_keys("C03")
+
     def detect():
         rep = Report("C03", "quick", 0)
         run(rep, "quick", 0)
-        return [v["key"] for v in rep.violations]
+        return [v["key"] for v in rep.violations if v["key"] not in known]
 
     def reduction_cubed(self, prevTempInC, newTempInC):
         dLL = self.linearExpansionFactor(Tc=newTempInC, T0=prevTempInC)
